@@ -97,6 +97,61 @@ def operator_rule(chk):
                     chk.bad('C26-op', '%s.%s' % (cname, mname), 'applies:%s' % got.__name__, '%s.%s computes `%s`: it applies %s where the method implements %s, so the value differs from the '
                             'Python built-in for some operands (e.g. -7 // 2 = -4 but -7 / 2 = -3.5)' % (cname, mname, ast.unparse(node)[:50], got.__name__, want.__name__), c['file'], node.lineno)
     chk.floor('operator applications in runtime dunders', n, 60)
+    order_rule(chk, classes)
+
+
+NONCOMM = (ast.Sub, ast.Div, ast.FloorDiv, ast.Mod, ast.Pow, ast.LShift, ast.RShift, ast.MatMult)
+
+
+def order_rule(chk, classes):
+    chk.rule('C26-order', 'operand order of the non-commutative dunders of the runtime classes: `__op__` / `__iop__` compute `self op other`, the reflected `__rop__` computes '
+                          '`other op self` — as a BinOp with the operands on those sides, or as `base.__op__(self, other)` / `base.__op__(other, self)` / `base.__rop__(self, other)`; '
+                          '`7 % Float(2.0)` must be 1.0, not 2.0 % 7')
+    n = 0
+
+    def has(e, name):
+        return any(isinstance(x, ast.Name) and x.id == name for x in ast.walk(e))
+    for cname, c in sorted(classes.items()):
+        seqlike = any(t in cname for t in ('Str', 'List', 'Tuple', 'Bytes'))
+        for mname, m in sorted(c['methods'].items()):
+            refl = mname.startswith('__r') and '__' + mname[3:] in PYOP
+            inpl = mname.startswith('__i') and '__' + mname[3:] in PYOP
+            base = '__' + mname[3:] if (refl or inpl) else mname
+            if base not in PYOP:
+                continue
+            op = PYOP[base]
+            if not (op in NONCOMM or (seqlike and op in (ast.Add,))):
+                continue
+            args = [a.arg for a in m.args.args]
+            if len(args) != 2:
+                continue
+            me, you = args
+            for node in ast.walk(m):
+                lhs = rhs = None
+                how = None
+                if isinstance(node, ast.BinOp) and type(node.op) is op:
+                    if isinstance(node.left, ast.Constant) and isinstance(node.left.value, str):
+                        continue
+                    lhs, rhs, how = node.left, node.right, ast.unparse(node)
+                elif isinstance(node, ast.Call) and isinstance(node.func, ast.Attribute) and node.func.attr in (base, '__r' + base[2:]) and len(node.args) == 2 \
+                        and ast.unparse(node.func.value) in ('int', 'float', 'str', 'list', 'bool', 'complex'):
+                    lhs, rhs, how = node.args[0], node.args[1], ast.unparse(node)
+                    if node.func.attr != base:       # base.__rop__(a, b) computes b op a
+                        lhs, rhs = rhs, lhs
+                if lhs is None:
+                    continue
+                l_me, l_you, r_me, r_you = has(lhs, me), has(lhs, you), has(rhs, me), has(rhs, you)
+                if (l_me and l_you) or (r_me and r_you) or not ((l_me or l_you) and (r_me or r_you)):
+                    continue       # both operands on one side / a constant operand: not an application of the method's operands
+                n += 1
+                straight = l_me and r_you
+                want_straight = not refl
+                if straight == want_straight:
+                    chk.ok('C26-order', (cname, mname, node.lineno))
+                else:
+                    chk.bad('C26-order', '%s.%s' % (cname, mname), 'order:%s' % op.__name__, '%s.%s computes `%s`: the operands are %s, but %s stands for `%s`' %
+                            (cname, mname, how[:60], 'self op other' if straight else 'other op self', mname, 'other op self' if refl else 'self op other'), c['file'], node.lineno)
+    chk.floor('non-commutative operator applications with both operands', n, 20)
 
 
 def run(chk):
